@@ -181,3 +181,72 @@ CONTRACTS.update(
         ),
     }
 )
+
+# ---------------------------------------------------------------------------------------------- conditions of if / elsif (if_002)
+# The region handed to the parenthesis rule is the slice at its recorded start; in the stripping mode (the default: parentheses are
+# inserted around it) it neither starts nor ends with white space, a line break or a comment, so that what is put in front of it
+# and behind it lands next to code (C01: a ')' behind a trailing comment would be comment text in the written file).
+WSC_ = "(parser.whitespace, parser.carriage_return, parser.comment, parser.blank_line, parser.preprocessor)"
+CONTRACTS.update(
+    {
+        "vsg.vhdlFile.utils.remove_leading_whitespace_and_comments": dict(
+            types={"iToken": "int", "lTokens": "list[%s]" % ITEM},
+            returns="tuple[int,list[%s]]" % ITEM,
+            ensures=[
+                # what is cut off in front is white space / comments only, the start moves by as much, and what remains starts with code
+                "iToken <= result[0] and result[0] <= iToken + len(lTokens)",
+                "implies(exists(lambda k: not isinstance(lTokens[k], %s), 0, len(lTokens)), result[0] > iToken and result[1] == lTokens[result[0] - iToken - 1:] and len(result[1]) >= 1 and not isinstance(result[1][0], %s) and forall(lambda k: isinstance(lTokens[k], %s), 0, result[0] - iToken - 1))" % (WSC_, WSC_, WSC_),
+                "implies(forall(lambda k: isinstance(lTokens[k], %s), 0, len(lTokens)), result[0] == iToken and result[1] == lTokens)" % WSC_,
+            ],
+            loops={1: dict(invariant=["forall(lambda k: isinstance(lTokens[k], %s), 0, _i)" % WSC_])},
+        ),
+    }
+)
+
+ALLW = "forall(lambda k: isinstance(old(lTokens)[k], %s), 0, len(old(lTokens)))" % WSC_
+CONTRACTS.update(
+    {
+        # (reverses its argument in place, cuts the white space / comments at the new front, reverses the rest again)
+        "vsg.vhdlFile.utils.remove_trailing_whitespace_and_comments": dict(
+            types={"lTokens": "list[%s]" % ITEM},
+            returns="list[%s]" % ITEM,
+            modifies=["lTokens"],
+            locals={"lMyTokens": "list[%s]" % ITEM},
+            ensures=[
+                "len(result) <= len(old(lTokens))",
+                # a prefix of the argument ...
+                "implies(not %s, result == old(lTokens)[:len(result)])" % ALLW,
+                # ... behind which only white space and comments were cut off ...
+                "forall(lambda k: isinstance(old(lTokens)[k], %s), len(result), len(old(lTokens)))" % WSC_,
+                # ... and which ends with code
+                "implies(not %s, len(result) >= 1 and not isinstance(result[len(result) - 1], %s))" % (ALLW, WSC_),
+            ],
+            loops={1: dict(invariant=["forall(lambda k: isinstance(lTokens[k], %s), 0, _i)" % WSC_, "len(lTokens) == len(old(lTokens))", "forall(lambda k: lTokens[k] is old(lTokens)[len(lTokens) - 1 - k], 0, len(lTokens))", "forall(lambda k: old(lTokens)[k] is lTokens[len(lTokens) - 1 - k], 0, len(lTokens))"])},
+        ),
+    }
+)
+
+# NOT LOADED (work in progress): 60 of 64 obligations of get_if_statement_conditions discharge; the four open ones need the
+# existential "there is code between the keyword and its then" carried through three slices.  Nothing is claimed from it; the two
+# helpers above are verified and the bounded layer (design if_condition_layouts, option value parenthesis: remove) decides.
+COND = "{R}.lTokens == lAllTokens[{R}.iStartIndex:{R}.iStartIndex + len({R}.lTokens)] and 0 <= {R}.iStartIndex and {R}.iLine == 1 + ncr(lAllTokens[:{R}.iStartIndex])"
+STRIPPED = "implies(fRemoveWhitespace, len({R}.lTokens) >= 1 and not isinstance({R}.lTokens[0], %s) and not isinstance({R}.lTokens[len({R}.lTokens) - 1], %s))" % (WSC_, WSC_)
+PENDING = {}
+PENDING.update(
+    {
+        # (None when there is no such token: the classifier accepts an if / elsif only with a condition and its then, so for the
+        # positions the extraction asks about there is one, and there is code in between -- part of the assumption)
+        "vsg.token_map.New.get_index_of_token_after_index": stub(types={"oToken": "obj", "iIndex": "int"}, returns="int", ensures=["iIndex < result and result < len(gall)", "exists(lambda k: not isinstance(gall[k], %s), iIndex + 1, result)" % WSC_]),
+        "vsg.vhdlFile.extract.get_if_statement_conditions.get_if_statement_conditions": dict(
+            types={"lAllTokens": "list[%s]" % ITEM, "oTokenMap": MAP, "fRemoveWhitespace": "bool"},
+            requires=["lAllTokens == gall"],
+            returns="list[%s]" % TOI,
+            locals={"lReturn": "list[%s]" % TOI, "lStart": "list[int]", "lEnd": "list[int]", "lTemp": "list[%s]" % ITEM},
+            ensures=["forall(lambda k: %s and %s, 0, len(result))" % (COND.format(R="result[k]"), STRIPPED.format(R="result[k]"))],
+            loops={
+                1: dict(invariant=["len(lEnd) == _i", "forall(lambda k: lStart[k] < lEnd[k] and lEnd[k] < len(lAllTokens) and exists(lambda j: not isinstance(lAllTokens[j], %s), lStart[k] + 1, lEnd[k]), 0, _i)" % WSC_, IN_RANGE.format(L="lStart", A="lAllTokens")]),
+                2: dict(invariant=["forall(lambda k: %s and %s, 0, len(lReturn))" % (COND.format(R="lReturn[k]"), STRIPPED.format(R="lReturn[k]"))]),
+            },
+        ),
+    }
+)
